@@ -7,7 +7,9 @@ import Mouette.Props.C02
 `_complete_edges_from_faces`, `_prepare_vertices`, `_generate_face_corners`, `_generate_cell_corners`,
 `_generate_cell_faces` (mesh_data.py) and
 `CornerDataContainer.append` (data_container.py) statement by statement into state-passing Lean definitions
-(`Generated/C02Bodies.lean`, vocabulary in `Model/PrepareSource.lean`). This file proves
+(`Generated/C02Bodies.lean`, vocabulary in `Model/PrepareSource.lean`). Round 5 adds `DataContainer.append`, `_prepare_edges`, `_prepare_faces`, `_prepare_cells` and `RawMeshData.__init__`
+(`data_append_source`, `prepare_edges_refines`, `prepare_faces_bridge`, `prepare_cells_bridge`, `init_rewrap_bridge`) and the file
+route (`file_route_source`). This file proves
 
 * BRIDGES `Generated.C02B.f = Prepare.f`: each extracted body computes what the hand model computes, for every state;
 * `prepare_runs_translated_bodies`: the model's `prepare` IS the translated step program of `prepare()`
@@ -30,12 +32,20 @@ theorem corner_append_source (c : List Nat × List Nat) (x y : Nat) :
     C02B.cornerAppend c x y = (c.1 ++ [x], c.2 ++ [y]) := by
   simp [C02B.cornerAppend]
 
+/-! ## `DataContainer.append(val)` -/
+
+/-- as written: the value is appended to `_data`, then every attribute is expanded by one slot -/
+theorem data_append_source {α : Type} (c : List α × List Attr) (x : α) :
+    C02B.dataAppend c x = (c.1 ++ [x], c.2.map (expandAttr 1)) := by
+  simp [C02B.dataAppend]
+
 /-! ## `_complete_faces_from_cells` -/
 
 theorem complete_faces_step (x : Raw × List (List Nat)) (c : List Nat) :
     C02B.completeFaces_loop2 x c = faceStep x c := by
   obtain ⟨s, st⟩ := x
-  by_cases h : keyF c ∈ st <;> simp [C02B.completeFaces_loop2, faceStep, setHas, setAdd, h]
+  by_cases h : keyF c ∈ st <;>
+    simp [C02B.completeFaces_loop2, faceStep, setHas, setAdd, h, data_append_source, facesAppend]
 
 theorem complete_faces_rows (x : Raw × List (List Nat)) (c : List Nat) :
     C02B.completeFaces_loop1 x c = (cellFacesC c).foldl C02B.completeFaces_loop2 x := by
@@ -70,7 +80,7 @@ theorem complete_edges_step (n : Nat) (f : List Nat) (x : Raw × List (Int × In
   by_cases hv : validE n e = true
   · have hv2 := (validE_iff n e).mp hv
     rw [if_neg (by simp <;> omega), if_pos hv]
-    by_cases hm : e ∈ st <;> simp [hm]
+    by_cases hm : e ∈ st <;> simp [hm, data_append_source, edgesAppend]
   · have hv2 : ¬ (e.1 ≠ e.2 ∧ 0 ≤ e.1 ∧ e.1 < n ∧ 0 ≤ e.2 ∧ e.2 < n) := fun h => hv ((validE_iff n e).mpr h)
     rw [if_pos (by simp <;> omega), if_neg hv]
 
@@ -330,9 +340,163 @@ theorem gen_cell_faces_refines (s q : Raw) (h : genCellFaces s = .ok q) : C02B.g
     rw [h2]
     simp [owners]
 
+/-! ## `_prepare_faces`, `_prepare_cells` (numpy rows become lists) -/
+
+theorem unNumpy_spec (r : Row (List Nat)) : (if r.isNumpy then r.tolist else r) = r.unNumpy := by
+  cases r <;> rfl
+
+/-- BRIDGE: `_prepare_faces` as written (every stored face row, at its own index: a numpy row is replaced by its `tolist()`,
+any other row is left alone) is the row-typed model's `prepareFacesR` -/
+theorem prepare_faces_bridge (x : RawR) : C02B.prepareFaces x = prepareFacesR x := by
+  unfold C02B.prepareFaces prepareFacesR
+  simp only
+  rw [foldl_range_field (fun (s : RawR) => s.faces) (fun s l => { s with faces := l }) (fun _ _ _ => rfl) (fun _ _ => rfl)
+    (fun _ => rfl) C02B.prepareFaces_loop1 (fun l i => l.set i (Row.unNumpy (l.getD i (.list [])))) ?_ x.faces.length x]
+  · rw [foldl_range_set Row.unNumpy (.list []) _ (fun _ _ => rfl) x.faces x.faces.length (Nat.le_refl _)]
+    simp
+  · intro s i
+    -- by cases on the container type of the row (tolerant of `if not isinstance(..): continue` spellings)
+    unfold C02B.prepareFaces_loop1 rowGet
+    have hs := set_getD_self s.faces i (.list [])
+    rcases hr : s.faces.getD i (.list []) with v | v | v <;> rw [hr] at hs <;>
+      simp [Row.isNumpy, Row.tolist, Row.unNumpy, Row.val, hs]
+
+/-- BRIDGE: the same for `_prepare_cells` -/
+theorem prepare_cells_bridge (x : RawR) : C02B.prepareCells x = prepareCellsR x := by
+  unfold C02B.prepareCells prepareCellsR
+  simp only
+  rw [foldl_range_field (fun (s : RawR) => s.cells) (fun s l => { s with cells := l }) (fun _ _ _ => rfl) (fun _ _ => rfl)
+    (fun _ => rfl) C02B.prepareCells_loop1 (fun l i => l.set i (Row.unNumpy (l.getD i (.list [])))) ?_ x.cells.length x]
+  · rw [foldl_range_set Row.unNumpy (.list []) _ (fun _ _ => rfl) x.cells x.cells.length (Nat.le_refl _)]
+    simp
+  · intro s i
+    -- by cases on the container type of the row (tolerant of `if not isinstance(..): continue` spellings)
+    unfold C02B.prepareCells_loop1 rowGet
+    have hs := set_getD_self s.cells i (.list [])
+    rcases hr : s.cells.getD i (.list []) with v | v | v <;> rw [hr] at hs <;>
+      simp [Row.isNumpy, Row.tolist, Row.unNumpy, Row.val, hs]
+
+/-- consequence on the translated text: no numpy row survives, values are untouched -/
+theorem prepare_faces_source_no_numpy (x : RawR) :
+    (∀ r ∈ (C02B.prepareFaces x).faces, r.isNumpy = false) ∧ (C02B.prepareFaces x).faces.map Row.val = x.faces.map Row.val := by
+  rw [prepare_faces_bridge]
+  unfold prepareFacesR
+  constructor
+  · intro r hr
+    obtain ⟨r0, _, rfl⟩ := List.mem_map.mp hr
+    exact Row.unNumpy_not_numpy r0
+  · simp [List.map_map, Function.comp_def]
+
+example : (C02B.prepareFaces { faces := [.nparray [0, 1, 2], .tuple [2, 1, 3], .list [4]] }).faces
+    = [.list [0, 1, 2], .tuple [2, 1, 3], .list [4]] := by decide
+
+/-! ## `RawMeshData.__init__` (fresh containers / re-wrap of a mesh object) -/
+
+/-- BRIDGE: `RawMeshData(mesh)` as written — each container is the mesh's own when the mesh object has it (`hasattr`, i.e.
+what `Mesh.__init__` as written shares for the class of the mesh), a fresh empty one otherwise, `_prepared = False` — is the
+model's `rewrap`; `RawMeshData()` is the empty record -/
+theorem init_rewrap_bridge (b : Built) :
+    C02B.initFromMesh (visible C02S.meshInitTable b.dim) b.raw = rewrap b ∧ C02B.initFresh = {} := by
+  refine ⟨?_, rfl⟩
+  rw [Mouette.Props.C02.mesh_init_bridge]
+  have e1 : visible expectedMeshInitTable b.dim "edges" = decide (1 ≤ b.dim) := by
+    simp [visible, expectedMeshInitTable]; omega
+  have e2 : visible expectedMeshInitTable b.dim "faces" = decide (2 ≤ b.dim) := by
+    simp [visible, expectedMeshInitTable]; omega
+  have e3 : visible expectedMeshInitTable b.dim "face_corners" = decide (2 ≤ b.dim) := by
+    simp [visible, expectedMeshInitTable]; omega
+  have e4 : visible expectedMeshInitTable b.dim "cells" = decide (3 ≤ b.dim) := by
+    simp [visible, expectedMeshInitTable]; omega
+  have e5 : visible expectedMeshInitTable b.dim "cell_corners" = decide (3 ≤ b.dim) := by
+    simp [visible, expectedMeshInitTable]; omega
+  have e6 : visible expectedMeshInitTable b.dim "cell_faces" = decide (3 ≤ b.dim) := by
+    simp [visible, expectedMeshInitTable]; omega
+  simp only [C02B.initFromMesh, rewrap, e1, e2, e3, e4, e5, e6, decide_eq_true_eq]
+
+/-! ## `_prepare_edges` (validity filter, rebuild of the container with attribute re-indexing, normalisation) -/
+
+theorem prepare_edges_create (as : List Attr) (ks : List String) (s : Raw) (l7 l6 : List String) (c : ECont) :
+    ks.foldl C02B.prepareEdges_loop1 (s, l7, l6, c) = (s, l7 ++ ks, l6 ++ ks, ks.foldl (createStep s.eattrs) c) := by
+  induction ks generalizing l7 l6 c with
+  | nil => simp
+  | cons k ks ih =>
+    rw [List.foldl_cons]
+    have : C02B.prepareEdges_loop1 (s, l7, l6, c) k = (s, l7 ++ [k], l6 ++ [k], createStep s.eattrs c k) := rfl
+    rw [this, ih]
+    simp
+
+theorem prepare_edges_copy (v6 v7 : List String) (n i : Nat) (s : Raw) (ks : List String) (c : ECont) :
+    ks.foldl (C02B.prepareEdges_loop3 v6 v7 n i) (s, c) = (s, ks.foldl (copyStep s.eattrs n i) c) := by
+  apply foldl_fst_const
+  intro c k
+  unfold C02B.prepareEdges_loop3 copyStep
+  simp only
+  split <;> rfl
+
+theorem prepare_edges_rebuild_step (s : Raw) (v7 : List String) (c : ECont) (n i : Nat) :
+    C02B.prepareEdges_loop2 s.verts.length (s.eattrs.map (·.name)) v7 (s, c, n) i
+      = (s, rebuildStep s.verts.length s.eattrs s.edges (c, n) i) := by
+  unfold C02B.prepareEdges_loop2 rebuildStep
+  simp only [prepare_edges_copy, data_append_source]
+  generalize edgeGet s.edges i = e
+  by_cases hv : validE s.verts.length e = true
+  · have hv2 := (validE_iff s.verts.length e).mp hv
+    rw [if_pos (by simp <;> omega), if_pos hv]
+  · have hv2 : ¬ (e.1 ≠ e.2 ∧ 0 ≤ e.1 ∧ e.1 < s.verts.length ∧ 0 ≤ e.2 ∧ e.2 < s.verts.length) :=
+      fun h => hv ((validE_iff s.verts.length e).mpr h)
+    rw [if_neg (by simp <;> omega), if_neg hv]
+
+theorem prepare_edges_normalise (s : Raw) :
+    (List.range s.edges.length).foldl C02B.prepareEdges_loop4 s = { s with edges := s.edges.map keyE } := by
+  rw [foldl_range_field (fun (s : Raw) => s.edges) (fun s l => { s with edges := l }) (fun _ _ _ => rfl) (fun _ _ => rfl)
+    (fun _ => rfl) C02B.prepareEdges_loop4 (fun l i => l.set i (keyE (l.getD i (0, 0)))) (fun _ _ => rfl) s.edges.length s]
+  rw [foldl_range_set keyE (0, 0) _ (fun _ _ => rfl) s.edges s.edges.length (Nat.le_refl _)]
+  simp
+
+/-- BRIDGE (refinement, attribute names unique as in the dict `_attr`): the body of `_prepare_edges` as written —
+`N = len(self.vertices)`; the validity test `any(not is_valid(a, b) ...)`; on an invalid edge a NEW container, one new
+attribute per old one (same name, dense iff the old one is, same default), then per edge in order: kept iff valid, appended
+low index first through `DataContainer.append`, and for every attribute the value copied to slot `n` when the old attribute
+is dense or holds a value for that edge, `n += 1`; `self.edges = new_edges`; otherwise every edge rewritten in place low
+index first — is the model's `prepareEdges` (filter, `survIdx`, `reindexAttr`) -/
+theorem prepare_edges_refines (s : Raw) (h : UniqueNames s.eattrs) : C02B.prepareEdges s = prepareEdges s := by
+  unfold C02B.prepareEdges prepareEdges
+  simp only
+  have hany : ∀ F : Int × Int → Bool, (∀ e, F e = !validE s.verts.length e) →
+      s.edges.any F = s.edges.any (fun e => !validE s.verts.length e) := by
+    intro F hF
+    have : F = fun e => !validE s.verts.length e := funext hF
+    rw [this]
+  rw [hany _ (fun e => by
+    by_cases hv : validE s.verts.length e = true
+    · have hv2 := (validE_iff s.verts.length e).mp hv
+      rw [hv]; simp <;> omega
+    · have hv2 : ¬ (e.1 ≠ e.2 ∧ 0 ≤ e.1 ∧ e.1 < s.verts.length ∧ 0 ≤ e.2 ∧ e.2 < s.verts.length) :=
+        fun h => hv ((validE_iff s.verts.length e).mpr h)
+      have hv' : validE s.verts.length e = false := by simpa using hv
+      rw [hv']; simp <;> omega)]
+  by_cases hi : s.edges.any (fun e => !validE s.verts.length e) = true
+  · rw [if_pos hi, if_pos hi]
+    rw [prepare_edges_create s.eattrs]
+    simp only [List.nil_append]
+    rw [create_fold s.eattrs h s.eattrs (fun _ ha => ha) []]
+    simp only [List.nil_append]
+    rw [foldl_fst_const (C02B.prepareEdges_loop2 s.verts.length (s.eattrs.map (·.name)) (s.eattrs.map (·.name)))
+      (rebuildStep s.verts.length s.eattrs s.edges) s (fun t i => prepare_edges_rebuild_step s _ t.1 t.2 i)]
+    simp only
+    rw [rebuild_fold s.verts.length s.eattrs h s.edges s.edges.length (Nat.le_refl _)]
+    simp only [List.take_length]
+  · rw [if_neg hi, if_neg hi]
+    exact prepare_edges_normalise s
+
+example : (C02B.prepareEdges demoEdges).edges = [(0, 1), (1, 2)] ∧
+    (C02B.prepareEdges demoEdges).eattrs = [⟨"w", 0, .dense [10, 12]⟩, ⟨"s", 5, .sparse [(1, 7)]⟩] := by decide
+
 /-! ## the whole of `prepare()` on the translated text -/
 
-theorem step_runs_translated_body (s : Step) (r r' : Raw) (h : runStep s r = .ok r') : runStepSrc s r = r' := by
+theorem step_runs_translated_body (s : Step) (r r' : Raw) (hu : UniqueNames r.eattrs) (h : runStep s r = .ok r') :
+    runStepSrc s r = r' ∧ UniqueNames r'.eattrs := by
+  refine ⟨?_, uniqueNames_step s r r' hu h⟩
   cases s <;> simp only [runStep, runStepSrc] at h ⊢
   case completeFaces => cases h; exact complete_faces_bridge r
   case completeEdges => cases h; exact complete_edges_bridge r
@@ -342,7 +506,7 @@ theorem step_runs_translated_body (s : Step) (r r' : Raw) (h : runStep s r = .ok
     unfold prepareVertices at this ⊢
     simp only at this
     rw [← this]
-  case prepareEdges => cases h; rfl
+  case prepareEdges => cases h; exact prepare_edges_refines r hu
   case prepareFaces => cases h; rfl
   case genFaceCorners => cases h; exact gen_face_corners_bridge r
   case prepareCells => cases h; rfl
@@ -354,9 +518,9 @@ theorem step_runs_translated_body (s : Step) (r r' : Raw) (h : runStep s r = .ok
 /-- THE TIE, composed: whenever the model's `prepare` succeeds (every cell a tetrahedron or hexahedron), its result is what
 the source computes when the step program of `prepare()` AS WRITTEN (`Generated.C02S.prepareProgram`: order, config
 guards, `_prepared` guard) is run on the function bodies AS WRITTEN (`Generated.C02B`). Every theorem of `Props/C02.lean`
-about `prepare cfg r = .ok p` is thereby a theorem about that text (only `_prepare_edges` and the numpy-row → list
-conversions are still the hand model inside it). -/
-theorem prepare_runs_translated_bodies (cfg : Cfg) (r p : Raw) (h : prepare cfg r = .ok p) :
+about `prepare cfg r = .ok p` is thereby a theorem about that text (attribute names unique, as the keys of the dict `_attr` are; the numpy-row → list
+conversions act on the row-typed model, see `prepare_faces_bridge`). -/
+theorem prepare_runs_translated_bodies (cfg : Cfg) (r p : Raw) (hu : UniqueNames r.eattrs) (h : prepare cfg r = .ok p) :
     prepareSrc cfg C02S.prepareProgram r = p := by
   rw [Mouette.Props.C02.prepare_follows_source_structure] at h
   unfold runProgram at h
@@ -364,19 +528,61 @@ theorem prepare_runs_translated_bodies (cfg : Cfg) (r p : Raw) (h : prepare cfg 
   by_cases hg : (C02S.prepareProgram.guardFirst && r.prepared) = true
   · rw [if_pos hg] at h ⊢; cases h; rfl
   · rw [if_neg hg] at h ⊢
-    exact runSteps_src cfg step_runs_translated_body _ r p h
+    exact runSteps_src cfg (fun r => UniqueNames r.eattrs) step_runs_translated_body _ r p hu h
 
 /-- headline clauses restated on the translated text: the finished edge list of the source's `prepare()` is normalised,
 and its faces are the declared ones followed by the missing cell faces -/
-theorem edges_normalised_source (cfg : Cfg) (r p : Raw) (h0 : r.prepared = false) (h : prepare cfg r = .ok p) :
+theorem edges_normalised_source (cfg : Cfg) (r p : Raw) (hu : UniqueNames r.eattrs) (h0 : r.prepared = false)
+    (h : prepare cfg r = .ok p) :
     ∀ e ∈ (prepareSrc cfg C02S.prepareProgram r).edges, 0 ≤ e.1 ∧ e.1 < e.2 ∧
       e.2 < ((prepareSrc cfg C02S.prepareProgram r).verts.length : Int) := by
-  rw [prepare_runs_translated_bodies cfg r p h]
+  rw [prepare_runs_translated_bodies cfg r p hu h]
   exact Mouette.Props.C02.edges_normalised cfg r p h0 h
 
 example : (prepareSrc {} C02S.prepareProgram demo).edges.length = 9 ∧
     (prepareSrc {} C02S.prepareProgram demo).faces.length = 7 ∧
     (prepareSrc {} C02S.prepareProgram demo).cfAdj = [0, 0, 0, 0, 1, 1, 1, 1] ∧
     (prepareSrc {} C02S.prepareProgram demo).prepared = true := by decide +kernel
+
+/-! ## the file route (`load` → reader → `_instanciate_raw_mesh_data`) -/
+
+/-- COMPOSITION with the readers: whatever record `m` a file reader hands over — in particular the results of C04's
+translated readers `Generated.C04R.importXyz cd file` / `Generated.C04R.parseTet cd file`, which are values of this type —
+if the construction succeeds on it, the finished object is what the source's `prepare()` text computes from it, its
+vertices are 3-D, its edges are stored low index first and in range, and its class is the highest dimension present
+(or the requested one, if higher). So "however a mesh is built … or a file" is the same theorem as for raw containers. -/
+theorem file_route_source (cfg : Cfg) (m : Mouette.IO.Raw Rat) (dim : Option Nat) (b : Built)
+    (h : instantiate cfg (ofIO m) dim = .ok b) :
+    prepareSrc cfg C02S.prepareProgram (ofIO m) = b.raw ∧
+    (∀ v ∈ b.raw.verts, v.length = 3) ∧
+    (∀ e ∈ b.raw.edges, 0 ≤ e.1 ∧ e.1 < e.2 ∧ e.2 < (m.verts.length : Int)) ∧
+    b.dim = max (dim.getD 0) (dimensionality b.raw) := by
+  unfold instantiate at h
+  cases hp : prepare cfg (ofIO m) with
+  | error e => simp [hp] at h
+  | ok p =>
+    simp only [hp] at h
+    cases h
+    have h0 : (ofIO m).prepared = false := rfl
+    refine ⟨prepare_runs_translated_bodies cfg _ p (ofIO_uniqueNames m) hp, ?_, ?_, rfl⟩
+    · exact Mouette.Props.C02.vertices_3d cfg _ p h0 hp (by
+        intro v hv
+        obtain ⟨q, _, rfl⟩ := List.mem_map.mp hv
+        simp)
+    · have := Mouette.Props.C02.edges_normalised cfg _ p h0 hp
+      have hl : p.verts.length = m.verts.length := by
+        obtain ⟨hverts, _⟩ := prepare_fields cfg _ p h0 hp
+        rw [hverts]; simp [ofIO]
+      rw [hl] at this
+      exact this
+
+/-- … and it does succeed whenever the file holds tetrahedra / hexahedra only -/
+theorem file_route_never_fails (cfg : Cfg) (m : Mouette.IO.Raw Rat) (dim : Option Nat)
+    (ha : ∀ c ∈ m.cells, c.length = 4 ∨ c.length = 8) : ∃ b, instantiate cfg (ofIO m) dim = .ok b := by
+  obtain ⟨p, hp⟩ := Mouette.Props.C02.prepare_never_fails cfg (ofIO m) ha
+  exact ⟨_, by unfold instantiate; rw [hp]⟩
+
+example : ∃ b, instantiate {} (ofIO { verts := [(0, 0, 0), (1, 0, 0), (0, 1, 0), (0, 0, 1)], cells := [[0, 1, 2, 3]] }) none = .ok b ∧
+    b.dim = 3 ∧ b.raw.faces.length = 4 ∧ b.raw.edges.length = 6 := ⟨_, rfl, by decide, by decide, by decide⟩
 
 end Mouette.Props.C02Source
